@@ -17,7 +17,7 @@ PROPS = {
         assumptions=[],
     ),
     "C11": dict(
-        units=["leader", "replica"],
+        units=["leader", "replica", "conv"],
         level="proof",
         level_text="Deductive proof (Verus) over the real text of Schedule::view_leader, Schedule::get and "
                    "LeaderSelection::leader_weighted_eligibility: for every well-formed schedule and every 64-bit view the function "
@@ -403,13 +403,37 @@ PROPS = {
         design_ref="DESIGN.md §4 C19",
         assumptions=[],
     ),
+    "C17": dict(
+        units=["scope"],
+        level="proof",
+        level_text="SEQUENTIAL FRAGMENTS of the task scope (what each piece of code does when it runs; not the join across tasks). Deductive "
+                   "proof (Verus) over the real text of scope::state::{TerminateGuard::set_err, State::take_err, State::terminated, the two Drop "
+                   "impls, the getters}, scope::task::{Task::run, Task::run_blocking, PanicReporter::new/defuse/drop} and the part of "
+                   "Scope::run / Scope::run_blocking after the root task is spawned. Decided for every error type and every order of reports: "
+                   "set_err keeps the failure the statement prescribes (the FIRST error among errors, a panic overrides an error, nothing "
+                   "overrides a panic), never leaves the record empty, and leaves the scope's context cancelled (invariant: a recorded failure "
+                   "implies a cancelled context); dropping the last main-task guard cancels the context, dropping the last guard sends the "
+                   "terminate signal; a task wrapper hands a successful result through unchanged, reports a failed routine's error to ITS scope "
+                   "before returning Err, and runs the routine only while the panic reporter is armed (an armed reporter that is dropped reports "
+                   "a panic); Scope::run / run_blocking read the recorded failure only AFTER the terminate signal was received (precondition of "
+                   "take_err, from the debug_assert), return the root task's result iff nothing was recorded, the recorded error otherwise, "
+                   "and re-raise only a recorded panic.",
+        level_note="Not decided (A4): that the terminate signal implies every task has finished (each task owns a guard through an Arc; "
+                   "reference counts and drop order are not modelled), unwinding itself (a panic inside a routine is represented only by the "
+                   "armed reporter's Drop), the Weak upgrade in main_task/bg_task, propagation of cancellation to child contexts (ctx/mod.rs) "
+                   "and deadlines. The Mutex content and the context's cancellation flag are made explicit parameters of set_err (R-lock); the "
+                   "spawn of the root task (Arc/Weak bookkeeping, unsafe spawn) is one abstracted region; one admitted composition axiom "
+                   "(nothing recorded after termination => the root task returned Ok) connects Task::run's and set_err's postconditions across tasks.",
+        technique="contract-based deductive verification (Verus on extracted real functions; lock content and cancellation flag made explicit; ghost history predicates)",
+        design_ref="DESIGN.md §4 C17",
+        assumptions=[],
+    ),
 }
 
 NOT_APPLICABLE = {
     "C06": "liveness under a fairness assumption over whole histories; no per-call contract expresses 'eventually commits'",
-    "C17": "every clause is about thread schedules and Arc drop order across tasks; Verus has no model of tokio tasks and Kani has no threads",
 }
 
-NOTES = "see DESIGN.md (status table in section 0). All 19 properties are either claimed (17) or listed as not applicable with the reason (C06, C17). Exit codes of every check: 0 held, 1 violation (VIOLATION line), 2 undecided / tool limit (never an alarm)."
+NOTES = "see DESIGN.md (status table in section 0). All 19 properties are either claimed (18) or listed as not applicable with the reason (C06: liveness). Exit codes of every check: 0 held, 1 violation (VIOLATION line), 2 undecided / tool limit (never an alarm)."
 HOOK_COMMITS = []
 
